@@ -41,6 +41,13 @@ CLAIMED = {
             'three _compute_metric formulas equal the textbook definitions over non-empty classes and that no result is infinite; each state is executed on the real objects '
             '(both precisions); 3..12 declared classes and automatic class sets with maxima in every threshold range are compared against exact rationals.',
             'Exact rational definitions; float comparison within 64 eps x cancellation factor; LUT builder memoised.', '6/C04'),
+    'C11': ('TLA+ concurrency model of both accumulation kernels at loop-nest granularity (KernelRace.tla: all interleavings of prange iterations, read/write steps), dtype-of-squaring '
+            'model (SquareK.tla), kernel-sequence history machine (KernelSeq.tla) model-checked by TLC; histories replayed on the real objects with the kernel forced per batch through the '
+            'SCARED_VERIF hook under several thread counts; unforced runs validated against the choice-rule model',
+            'TLC explores every interleaving of the parallel iterations of the four kernels on small instances (no concurrent writers of a cell, final memory = contribution; racy variant refuted), '
+            'and every batch split x every kernel sequence; each is executed on the real partitioned / template-build objects with forced kernels and 1/2/16 threads: state equals the '
+            'specification after every batch, results bit-identical across all sequences and thread counts in the exact regime, incl. float32 traces with a 2^12 offset under float64 precision.',
+            'Intra-kernel interleavings are exhaustive on the model, sampled on the implementation; hook = SCARED_VERIF kernel forcing/logging (add-only).', '6/C11'),
     'C12': ('TLA+ model of the class-set derivation and value->class lookup (Partitions.tla, PartitionsMC.tla: repaired threshold loop verified for every maximum, pinned loop '
             'refuted), class-identity lemmas (ClassId.tla, StatsEnum.tla), history machine (Distinguisher.tla) with by-value state; replayed on real ANOVA/NICV/SNR/MIA/template objects and attacks',
             'Exhaustive over first-batch maxima 0..300; every update/compute history over datasets with undeclared values and rotated / permuted / gapped class lists with the state '
@@ -111,7 +118,7 @@ def build():
     return m
 
 
-HOOK_COMMITS = []
+HOOK_COMMITS = ['88a9c81']
 
 if __name__ == '__main__':
     m = build()
